@@ -154,7 +154,7 @@ def run(rep):
             has_nonempty = any(any(cname(c) in ('std::vec::Vec::<T, A>::is_empty', 'core::slice::<impl [T]>::is_empty', 'std::string::String::is_empty', 'core::str::<impl str>::is_empty')
                                    for c in g['calls']) and falsy_only(g) and any('.stdout' in p[1] for p in g['places']) for g in gs) or \
                 any(any(method(cname(c)) == 'len' for c in g['calls']) and any('.stdout' in p[1] for p in g['places']) for g in gs)
-            has_write = any(any(method(cname(c)) in ('write_all', 'write', 'write_fmt', 'copy') for c in g['calls']) for g in gs)
+            has_write = any(any(method(cname(c)) in ('write_all', 'write', 'write_fmt', 'copy') for c in deep_calls(mir, body, g['calls'])) for g in gs)
             key = f'stdout-use:{fn}'
             rep.check(has_success, 'C19.c.exit-status', key, body.where(bb),
                       f'captured formatter stdout is used ({what}) without being dominated by ExitStatus::success() == true: a '
@@ -203,6 +203,22 @@ def run(rep):
             rep.ok('C19.e.identity-text', f'identity:{fn}', body.where(),
                    f'{len(calls)} calls in the backward slice of the return value, all identity-like or process plumbing')
     rep.floor('formatter functions returning text', n_e, 1)
+
+
+def deep_calls(mir, body, calls):
+    """the calls of a guard's definition chain, plus the calls made inside closures handed to them (`stdin.take().map(|mut s| s.write_all(..))`)"""
+    out = list(calls)
+    for c in calls:
+        for a in c.get('args', []):
+            l = op_local(a)
+            if l is None or l >= len(body.locals) or 'closure' not in body.locals[l]:
+                continue
+            for _, kind, x in body.defs().get(l, []):
+                if kind == 'assign' and x['rv']['rk'] == 'aggregate' and x['rv']['agg'].startswith('closure:'):
+                    cb = mir.bodies.get(x['rv']['agg'][len('closure:'):])
+                    if cb is not None:
+                        out.extend(t for _, t in cb.calls())
+    return out
 
 
 def stdout_uses(body):
